@@ -85,23 +85,37 @@ theorem appendTableSize_first (v : Nat) : ∃ hd tl, appendTableSize v = hd :: t
 theorem parseLiteral_shape (d : DecCore) (n : Nat) (it : IndexType) (buf : Bytes) (a : Action) (rest : Bytes)
     (h : parseLiteral d n it buf = .ok (a, rest)) : ∃ tn un uv, a = .literal it tn un uv := by
   unfold parseLiteral Parser.bind at h
-  split at h
-  · cases h
-  · dsimp only at h
-    split at h
-    · split at h
-      · simp [Parser.fail] at h
-      · simp only [Parser.bind] at h
-        split at h
-        · cases h
-        · simp only [Parser.pure, Except.ok.injEq, Prod.mk.injEq] at h
+  cases hrv : readVarInt n buf with
+  | error e => rw [hrv] at h; cases h
+  | ok ar =>
+    obtain ⟨idx, r⟩ := ar
+    rw [hrv] at h
+    dsimp only at h
+    by_cases hpos : idx > 0
+    · simp only [hpos, ↓reduceIte] at h
+      cases hat : d.at idx with
+      | none => rw [hat] at h; simp [Parser.fail] at h
+      | some en =>
+        rw [hat] at h
+        dsimp only [Parser.bind] at h
+        cases hrs : readString d.maxStrLen r with
+        | error e => rw [hrs] at h; cases h
+        | ok ur =>
+          rw [hrs] at h
+          simp only [Parser.pure, Except.ok.injEq, Prod.mk.injEq] at h
           exact ⟨_, _, _, h.1.symm⟩
-    · simp only [Parser.bind] at h
-      split at h
-      · cases h
-      · split at h
-        · cases h
-        · simp only [Parser.pure, Except.ok.injEq, Prod.mk.injEq] at h
+    · simp only [hpos, ↓reduceIte] at h
+      cases hrs : readString d.maxStrLen r with
+      | error e => rw [hrs] at h; cases h
+      | ok ur =>
+        obtain ⟨u1, r1⟩ := ur
+        rw [hrs] at h
+        dsimp only at h
+        cases hrs2 : readString d.maxStrLen r1 with
+        | error e => rw [hrs2] at h; cases h
+        | ok ur2 =>
+          rw [hrs2] at h
+          simp only [Parser.pure, Except.ok.injEq, Prod.mk.injEq] at h
           exact ⟨_, _, _, h.1.symm⟩
 
 theorem finishEmit_ok (d : DecCore) (hf : Field) (d' : DecCore) (em : Option Field)
@@ -153,8 +167,7 @@ theorem applyAction_literal_ok (d : DecCore) (it : IndexType) (tn : Option Bytes
         cases it with
         | indexedTrue =>
           simp only [IndexType.indexed, beq_self_eq_true, ↓reduceIte] at hx
-          have hsub := evict_ents_prefix { d.dyn with ents := (name, value) :: d.dyn.ents,
-                                                     size := d.dyn.size + entrySize (name, value) }
+          have hsub : (d.dyn.add (name, value)).ents <+: (name, value) :: d.dyn.ents := evict_ents_prefix _
           have hx' : x ∈ (name, value) :: d.dyn.ents := hsub.subset hx
           rcases List.mem_cons.mp hx' with hx1 | hx1
           · right
@@ -164,10 +177,8 @@ theorem applyAction_literal_ok (d : DecCore) (it : IndexType) (tn : Option Bytes
             have : em = some { name := name, value := value, sensitive := IndexType.indexedTrue.sensitive } := by
               unfold finishEmit callEmit at h
               simp only [IndexType.indexed, beq_self_eq_true, ↓reduceIte] at h
-              simp only [show ({ d with dyn := d.dyn.add (name, value) } : DecCore).maxStrLen = 0 from hms,
-                ne_eq, not_true_eq_false, false_and, ↓reduceIte,
-                show ({ d with dyn := d.dyn.add (name, value) } : DecCore).emitEnabled = true from hen,
-                ApplyRes.ok.injEq] at h
+              rw [if_neg (by simp [hms]), if_pos hen] at h
+              simp only [ApplyRes.ok.injEq] at h
               exact h.2.symm
             exact ⟨_, this, hx1⟩
           · left; exact hx1
@@ -223,5 +234,196 @@ theorem decoder_never_indexed_err (d : DecCore) (b : Nat) (p : Bytes) (hb : b / 
       rw [← h.2]
       exact applyAction_literal_err d _ tn un uv d1 e1 hap (by simp [LitKind.it])
     · cases h
+
+/-! ### Encoder and decoder together -/
+
+/-- **A sensitive field on the joint run** (no table size update pending): the decoder reads the
+representation back as exactly `f` (so `Sensitive = true`), its table is untouched, and so is the
+encoder's. -/
+theorem sensitive_roundtrip (A : Nat) (e : Encoder) (d : DecCore) (f : Field) (rest : Bytes)
+    (hs : Sim A e d) (hu : e.tableSizeUpdate = false) (hf : FieldOK f) (hA : A ≤ uint32Max)
+    (hsens : f.sensitive = true) :
+    ∃ d', parseRepr d ((e.writeRepr f).2 ++ rest) = .ok d' rest (some f) ∧ d'.dyn = d.dyn ∧
+      (e.writeRepr f).1.dyn = e.dyn := by
+  obtain ⟨d', hp, _, _, _⟩ := writeRepr_sim A e d f rest hs hu hf hA
+  obtain ⟨hd, tl, hcons, hpat⟩ := sensitive_repr_never_indexed e f hsens
+  refine ⟨d', hp, ?_, ?_⟩
+  · rw [hcons] at hp
+    exact (decoder_never_indexed d hd (tl ++ rest) hpat d' rest (some f) hp).1
+  · unfold Encoder.writeRepr
+    simp only [sensitive_no_match _ f hsens, sensitive_not_indexing _ f hsens, Bool.false_eq_true, ↓reduceIte]
+
+/-- The same through the public calls: `WriteField` then `Decoder.Write`. -/
+theorem sensitive_writeField (A : Nat) (e : Encoder) (d : Decoder) (f : Field)
+    (hs : Sim A e d.toDecCore) (hsave : d.saveBuf = []) (hA : A ≤ uint32Max)
+    (hu : e.tableSizeUpdate = false) (hf : FieldOK f) (hsens : f.sensitive = true) :
+    ∃ d', d.write (e.writeField f).2 = (d', [f], none) ∧ d'.dyn = d.dyn ∧ (e.writeField f).1.dyn = e.dyn := by
+  have hflush : e.flushUpdate = (e, []) := by unfold Encoder.flushUpdate; simp [hu]
+  obtain ⟨d2, hp, hdyn, _⟩ := sensitive_roundtrip A e d.toDecCore f [] hs hu hf hA hsens
+  obtain ⟨_, _, hlen, _, _⟩ := writeRepr_sim A e d.toDecCore f [] hs hu hf hA
+  rw [List.append_nil] at hp hlen
+  have hne : (e.writeField f).2 ≠ [] := by
+    unfold Encoder.writeField
+    rw [hflush]
+    simp only [List.nil_append]
+    intro h0; rw [h0] at hlen; simp at hlen
+  have hb : (e.writeField f).2 = (e.writeRepr f).2 := by
+    unfold Encoder.writeField; rw [hflush]; rfl
+  refine ⟨{ toDecCore := { d2 with firstField := false }, saveBuf := [] }, ?_, hdyn,
+    sensitive_encoder_table_unchanged e f hsens⟩
+  rw [write_eq d _ hne, hsave, List.nil_append, hb, loopG_step true _ d2 _ [] (some f) [] hp hlen, loopG_nil]
+  simp [finishWrite, optToList]
+
+/-! ### Histories: where table entries come from -/
+
+def pairOf (f : Field) : Entry := (f.name, f.value)
+
+/-- The (name, value) pairs of the fields written with `Sensitive = false`. -/
+def nsPairs (fs : List Field) : List Entry := (fs.filter (fun f => !f.sensitive)).map pairOf
+
+theorem mem_nsPairs (fs : List Field) (f : Field) (hf : f ∈ fs) (hs : f.sensitive = false) : pairOf f ∈ nsPairs fs := by
+  unfold nsPairs
+  exact List.mem_map.mpr ⟨f, List.mem_filter.mpr ⟨hf, by simp [hs]⟩, rfl⟩
+
+theorem nsPairs_append (a b : List Field) : nsPairs (a ++ b) = nsPairs a ++ nsPairs b := by
+  simp [nsPairs]
+
+theorem flushUpdate_dyn (e : Encoder) : e.flushUpdate.1.dyn = e.dyn := by
+  unfold Encoder.flushUpdate; split <;> rfl
+
+theorem writeRepr_ents (e : Encoder) (f : Field) :
+    ∀ x ∈ (e.writeRepr f).1.dyn.ents, x ∈ e.dyn.ents ∨ (f.sensitive = false ∧ x = pairOf f) := by
+  intro x hx
+  unfold Encoder.writeRepr at hx
+  simp only at hx
+  split at hx
+  · left; exact hx
+  · by_cases hi : e.shouldIndex f = true
+    · simp only [hi, ↓reduceIte] at hx
+      have hsub : (e.dyn.add (f.name, f.value)).ents <+: (f.name, f.value) :: e.dyn.ents := evict_ents_prefix _
+      rcases List.mem_cons.mp (hsub.subset hx) with h1 | h1
+      · right
+        refine ⟨?_, h1⟩
+        unfold Encoder.shouldIndex at hi
+        simp only [Bool.and_eq_true, Bool.not_eq_true'] at hi
+        exact hi.1
+      · left; exact h1
+    · simp only [hi, Bool.false_eq_true, ↓reduceIte] at hx
+      left; exact hx
+
+theorem writeField_ents (e : Encoder) (f : Field) :
+    ∀ x ∈ (e.writeField f).1.dyn.ents, x ∈ e.dyn.ents ∨ (f.sensitive = false ∧ x = pairOf f) := by
+  intro x hx
+  have := writeRepr_ents e.flushUpdate.1 f x hx
+  rw [flushUpdate_dyn] at this
+  exact this
+
+theorem writeFields_ents : ∀ (fs : List Field) (e : Encoder),
+    ∀ x ∈ (e.writeFields fs).1.dyn.ents, x ∈ e.dyn.ents ∨ x ∈ nsPairs fs := by
+  intro fs
+  induction fs with
+  | nil => intro e x hx; left; exact hx
+  | cons f fs ih =>
+    intro e x hx
+    rcases ih (e.writeField f).1 x hx with h1 | h1
+    · rcases writeField_ents e f x h1 with h2 | ⟨h2, h3⟩
+      · left; exact h2
+      · right; rw [h3]; exact mem_nsPairs _ f (by simp) h2
+    · right
+      have : nsPairs (f :: fs) = nsPairs [f] ++ nsPairs fs := nsPairs_append [f] fs
+      rw [this]
+      exact List.mem_append_right _ h1
+
+theorem sizeOp_ents (e : Encoder) (op : SizeOp) : ∀ x ∈ (e.sizeOp op).dyn.ents, x ∈ e.dyn.ents := by
+  intro x hx
+  cases op with
+  | setMax v => exact (setMaxSize_ents_prefix _ _).subset hx
+  | setLimit v =>
+    simp only [Encoder.sizeOp, Encoder.setMaxDynamicTableSizeLimit] at hx
+    split at hx
+    · exact (setMaxSize_ents_prefix _ _).subset hx
+    · exact hx
+
+theorem sizeOps_ents : ∀ (ops : List SizeOp) (e : Encoder), ∀ x ∈ (ops.foldl Encoder.sizeOp e).dyn.ents, x ∈ e.dyn.ents := by
+  intro ops
+  induction ops with
+  | nil => intro e x hx; exact hx
+  | cons op ops ih => intro e x hx; exact sizeOp_ents e op x (ih _ x hx)
+
+/-- The encoder side of a history (`(Sys.block s b).1.enc` is `(s.enc.encodeBlock b).1` by definition). -/
+def encodeHistory : Encoder → List Block → Encoder
+  | e, [] => e
+  | e, b :: bs => encodeHistory (e.encodeBlock b).1 bs
+
+def allFields (h : List Block) : List Field := h.flatMap (·.fields)
+
+/-- **Every entry of the encoder's dynamic table comes from a field written with
+`Sensitive = false`** — after any history of blocks and table size calls (no hypotheses). -/
+theorem encoder_table_provenance : ∀ (h : List Block) (e : Encoder),
+    ∀ x ∈ (encodeHistory e h).dyn.ents, x ∈ e.dyn.ents ∨ x ∈ nsPairs (allFields h) := by
+  intro h
+  induction h with
+  | nil => intro e x hx; left; exact hx
+  | cons b bs ih =>
+    intro e x hx
+    have hall : nsPairs (allFields (b :: bs)) = nsPairs b.fields ++ nsPairs (allFields bs) := by
+      unfold allFields; rw [List.flatMap_cons, nsPairs_append]
+    rw [hall]
+    rcases ih _ x hx with h1 | h1
+    · rcases writeFields_ents b.fields _ x h1 with h2 | h2
+      · left; exact sizeOps_ents b.pre e x h2
+      · right; exact List.mem_append_left _ h2
+    · right; exact List.mem_append_right _ h1
+
+theorem at_mem (d : DecCore) (i : Nat) (x : Entry) (h : d.at i = some x) : x ∈ staticTable ∨ x ∈ d.dyn.ents := by
+  unfold DecCore.at at h
+  split at h
+  · cases h
+  · split at h
+    · left; exact List.mem_of_getElem? h
+    · split at h
+      · cases h
+      · right; exact List.mem_of_getElem? h
+
+/-- **No later reference to a sensitive value**: after any history, if the encoder represents a
+field `g` by an *indexed* representation, then `g` itself is not sensitive and the entry it refers to
+is a static entry or the pair of an earlier field written with `Sensitive = false`. A (name, value)
+that was only ever written as sensitive is in no table and can never be referenced. -/
+theorem no_later_reference (h : List Block) (g : Field)
+    (hm : ((encodeHistory Encoder.new h).searchTable g).2 = true) :
+    g.sensitive = false ∧ (pairOf g ∈ staticTable ∨ pairOf g ∈ nsPairs (allFields h)) := by
+  let e := encodeHistory Encoder.new h
+  have hspec := (searchTable_spec e { dyn := e.dyn } g (List.prefix_refl _)).1 hm
+  refine ⟨hspec.1, ?_⟩
+  rcases at_mem _ _ _ hspec.2.2 with h1 | h1
+  · left; exact h1
+  · right
+    rcases encoder_table_provenance h Encoder.new _ h1 with h2 | h2
+    · exact absurd h2 (by simp [Encoder.new, DynTable.setMaxSize, DynTable.evict, evictLoop])
+    · exact h2
+
+/-- A pair written only as sensitive never enters the encoder's table. -/
+theorem sensitive_only_never_stored (h : List Block) (x : Entry)
+    (honly : ∀ f ∈ allFields h, pairOf f = x → f.sensitive = true) :
+    x ∉ (encodeHistory Encoder.new h).dyn.ents := by
+  intro hx
+  rcases encoder_table_provenance h Encoder.new x hx with h2 | h2
+  · exact absurd h2 (by simp [Encoder.new, DynTable.setMaxSize, DynTable.evict, evictLoop])
+  · unfold nsPairs at h2
+    obtain ⟨f, hf, hpf⟩ := List.mem_map.mp h2
+    obtain ⟨hmem, hns⟩ := List.mem_filter.mp hf
+    have := honly f hmem hpf
+    simp [this] at hns
+
+/-! ### Non-vacuity -/
+
+def secret : Field := { name := [97], value := [98], sensitive := true }
+
+example : ((Encoder.new.writeField secret).2) = [16, 1, 97, 1, 98] := by decide +kernel
+example : (Encoder.new.writeField secret).1.dyn = Encoder.new.dyn := sensitive_encoder_table_unchanged _ _ rfl
+/-- After writing `a: b` non-sensitively, the sensitive copy is still a never-indexed literal
+(name taken from the table entry 62, value literal) and the table does not change. -/
+example : ((Encoder.new.writeField { name := [97], value := [98] }).1.writeField secret).2 = [31, 47, 1, 98] := by
+  decide +kernel
 
 end NetVerif.Proofs.C05
